@@ -215,25 +215,30 @@ func TestVX_C09_Glue(t *testing.T) {
 		r.Shape(name)
 		r.Sample(map[string]interface{}{"group": name, "runs": len(runs), "distinct_traces": len(distinct), "events": ref.Events})
 	}
+	// every run of a group works on the SAME buffers (contents copied in): code that compares buffer addresses (overlap
+	// checks) then takes the same path in every run - addresses are not data
 	// ---- block cipher
 	{
 		var runs []glueRun
+		kb, ib, ob := make([]byte, 16), make([]byte, 16), make([]byte, 16)
 		for _, kn := range knames {
 			k := keys[kn]
 			runs = append(runs, glueRun{"key:" + kn, func() {
-				b, _ := sm4.NewCipher(k)
-				var o, p [16]byte
-				b.Encrypt(o[:], p[:])
-				b.Decrypt(p[:], o[:])
+				copy(kb, k)
+				copy(ib, make([]byte, 16))
+				b, _ := sm4.NewCipher(kb)
+				b.Encrypt(ob, ib)
+				b.Decrypt(ib, ob)
 			}})
 		}
 		for _, dk := range []string{"zero", "ones", "seeded"} {
 			in := pat(dk, "blk", 16)
 			runs = append(runs, glueRun{"data:" + dk, func() {
-				b, _ := sm4.NewCipher(keys["std"])
-				var o [16]byte
-				b.Encrypt(o[:], in)
-				b.Decrypt(o[:], in)
+				copy(kb, keys["std"])
+				copy(ib, in)
+				b, _ := sm4.NewCipher(kb)
+				b.Encrypt(ob, ib)
+				b.Decrypt(ib, ob)
 			}})
 		}
 		group("block", runs)
@@ -261,10 +266,16 @@ func TestVX_C09_Glue(t *testing.T) {
 						insts = append(insts, inst{"data:aad-" + dk, keys["std"], pat("seeded", "n", nl), pat("seeded", "p", pl), pat(dk, "a", al)})
 					}
 					var seal, open, forged []glueRun
+					kb, nb, pb, ab, cb := make([]byte, 16), make([]byte, nl), make([]byte, pl), make([]byte, al), make([]byte, pl+tag)
+					outb := make([]byte, 0, pl+tag+16)
 					for _, in := range insts {
 						in := in
 						mk := func() cipher.AEAD {
-							b, _ := sm4.NewCipher(in.key)
+							copy(kb, in.key)
+							copy(nb, in.nonce)
+							copy(pb, in.pt)
+							copy(ab, in.aad)
+							b, _ := sm4.NewCipher(kb)
 							a, err := b.(gcmAble).NewGCM(nl, tag)
 							if err != nil {
 								panic(err)
@@ -274,14 +285,18 @@ func TestVX_C09_Glue(t *testing.T) {
 						ct := gcmref.Seal(refCipher(in.key), in.nonce, in.pt, in.aad, tag)
 						bad := append([]byte{}, ct...)
 						bad[len(bad)-1] ^= 0x40
-						seal = append(seal, glueRun{in.name, func() { mk().Seal(nil, in.nonce, in.pt, in.aad) }})
+						seal = append(seal, glueRun{in.name, func() { mk().Seal(outb[:0], nb, pb, ab) }})
 						open = append(open, glueRun{in.name, func() {
-							if _, err := mk().Open(nil, in.nonce, ct, in.aad); err != nil {
+							a := mk()
+							copy(cb, ct)
+							if _, err := a.Open(outb[:0], nb, cb, ab); err != nil {
 								panic("authentic message rejected")
 							}
 						}})
 						forged = append(forged, glueRun{in.name, func() {
-							if _, err := mk().Open(nil, in.nonce, bad, in.aad); err == nil {
+							a := mk()
+							copy(cb, bad)
+							if _, err := a.Open(outb[:0], nb, cb, ab); err == nil {
 								panic("forged message accepted")
 							}
 						}})
